@@ -51,7 +51,9 @@ ASSUMPTIONS = [
     "every model cell; the slid-vertices cell keeps new vertex positions inside the original edge (first 35 % / last "
     "35 % of the curve between the old vertices)",
     "shared-array cell: the expected curve of a holder is the user's points plus that holder's own displacement "
-    "(in-place translate() of the operation / face); holders are 10 block diagonals apart so no vertices coincide",
+    "(in-place translate() of the operation / face), then optionally mapped by an in-place rotate() of the holder about "
+    "a point within one diagonal of it, axis given with any length (vf.refmodel normalises it); holders are 10 block "
+    "diagonals apart so no vertices coincide",
     "projection sequences: labels(edge) = surfaces of all sides projected with edges=True that contain the edge + "
     "surfaces given to project_edge for that edge; the four edges of a side come from the blockMesh sketch (R-HEX)",
 ]
@@ -70,7 +72,7 @@ def positions(case) -> np.ndarray:
     rot = case.get("rot")
     if rot:
         pos = pos @ rodrigues(rot[:3], rot[3]).T
-    pos = pos * case.get("scale", 1.0)
+    pos = pos * case.get("model_scale", 1.0)
     col = case.get("collapse")
     if col:
         pos = pos.copy()
@@ -450,8 +452,8 @@ def judge(case, b: Built, text: str, facts, ctx: Optional[Ctx]) -> None:
     ctx.label("write:" + case.get("write_history", "once"))
     if case.get("slide"):
         ctx.label("slid:" + ("both" if case["slide"][0] > 0 and case["slide"][1] < 1 else "one-end"))
-    if "scale" in case:
-        ctx.label("scale=%g" % case["scale"])
+    if "model_scale" in case:
+        ctx.label("scale=%g" % case["model_scale"])
         lens = [d.truth.chord for d in matched.values()]
         if lens and min(lens) < 3e-4:
             ctx.label("written-edge-shorter-than-3e-4")
@@ -643,7 +645,7 @@ def small_case(draw):
         case = draw(single_case(SMALL_KINDS))
     else:
         case = draw(shared_case(draw(st.sampled_from(["nothing", "same"])), kinds=SMALL_KINDS))
-    case["scale"] = draw(st.sampled_from(SCALES))
+    case["model_scale"] = draw(st.sampled_from(SCALES))
     return case
 
 
@@ -666,8 +668,8 @@ def slide_case(draw):
 def small_grid() -> List[dict]:
     out = []
     for k, case in enumerate(grid(("spline", "polyLine", "project"), "even", ALL_SLOTS)):
-        if k % 6 == 0:  # one history per (kind, slot)
-            out.append(dict(case, scale=SCALES[(k // 6) % len(SCALES)]))
+        if k % 4 == 0:  # one history per (kind, slot)
+            out.append(dict(case, model_scale=SCALES[(k // 4) % len(SCALES)]))
     return out
 
 
@@ -835,6 +837,14 @@ def shared_array_case(draw):
     case["first_stays"] = draw(st.booleans())  # station 0 is not translated at all
     case["interleaved"] = draw(st.booleans())  # build + translate one after the other, or build all, then translate all
     case["as_array"] = draw(st.sampled_from([True, True, True, False]))  # False: a list of lists (always copied)
+    # after the translations a holder may also be turned in place: angle, axis as the user would give it (any length,
+    # e.g. the difference of two points), origin relative to the holder's centre in block diagonals
+    turn = st.tuples(st.floats(0.2, 3.0), st.sampled_from([1, -1]),
+                     st.tuples(st.floats(-1, 1), st.floats(-1, 1), st.floats(0.2, 1)), st.sampled_from([1.0, 2.5, 0.3, 7.0]),
+                     st.tuples(st.floats(-1, 1), st.floats(-1, 1), st.floats(-1, 1)))
+    case["turns"] = [None if draw(st.integers(0, 2)) == 0 else
+                     (lambda t: [t[0] * t[1], [t[3] * x / math.sqrt(sum(y * y for y in t[2])) for x in t[2]], list(t[4])])(draw(turn))
+                     for _ in range(n)]
     return case
 
 
@@ -889,6 +899,22 @@ def check_shared_array(case, ctx: Ctx) -> None:
             if np.any(offsets[1] != 0):
                 ops[0].translate(offsets[1])
                 truths = [t.translated(offsets[1]) for t in truths]
+        # holders turned in place about their own neighbourhood (axis of any length)
+        from vf.refmodel import m_rotate
+
+        centre = P.mean(axis=0)
+        for k, turn in enumerate(case.get("turns") or []):
+            if turn is None or (case["variant"] == "two-faces" and k == 0):
+                continue
+            origin = centre + offsets[k] + diag * np.array(turn[2])
+            M = m_rotate(turn[0], turn[1], origin)
+            if case["variant"] == "stations":
+                ops[k].rotate(turn[0], turn[1], origin)
+                truths[k] = truths[k].moved(M)
+            else:
+                ops[0].rotate(turn[0], turn[1], origin)
+                truths = [t.moved(M) for t in truths]
+            facts["turned"] = True
     except Exception as ex:
         raise Violation("construction-raised", f"{type(ex).__name__}: {ex}", **facts) from None
     for op in ops:
@@ -927,6 +953,9 @@ def check_shared_array(case, ctx: Ctx) -> None:
     ctx.label("variant:" + case["variant"], "kind:" + case["spec"]["kind"], "pos:%d" % p,
               "given-as-float64-array" if case["as_array"] else "given-as-list",
               "interleaved" if case["interleaved"] else "built-then-translated", "holders=%d" % len(truths))
+    if facts.get("turned"):
+        ctx.label("holder-turned(non-unit-axis)" if any(t and abs(np.linalg.norm(t[1]) - 1) > 1e-9 for t in case["turns"])
+                  else "holder-turned")
 
 
 CELLS = [
